@@ -256,7 +256,7 @@ class C04:
         rng = random.Random(f"{sh['seed']}/C04/{sh['index']}")
         self.run_special(rng, rec)
         real = sh["real"]
-        for i in range(sh["n"]):
+        for i in harness.budgeted(range(sh["n"]), rec):
             v = rstr(rng)
             if "\0" in v:
                 continue
